@@ -1,4 +1,13 @@
 package main
 
-// genExtra is extended as further models come online (gen/, idl/, compile/ facts).
-func genExtra() {}
+// generators is the registry of fact generators; each gen_<area>.go file appends
+// its own in an init function, e.g.
+//
+//	func init() { generators = append(generators, genIdl) }
+var generators []func()
+
+func genExtra() {
+	for _, g := range generators {
+		g()
+	}
+}
